@@ -1004,3 +1004,132 @@ Proof.
       destruct (IH _ _ _ E (log0 ++ au_frame x)) as [A B]. split; [|exact B].
       rewrite R, app_assoc. exact A.
 Qed.
+
+(* ------------------------------------------------------------------------------------------ *)
+(* 7. refinement: the run-alone outcome of the exclusion-merge machine is the declarative      *)
+(*    selection                                                                                *)
+(* ------------------------------------------------------------------------------------------ *)
+Lemma citerate_add {A} (f : A -> A) a b x : citerate (a + b) f x = citerate b f (citerate a f x).
+Proof. revert x; induction a as [|a IH]; intro x; cbn; auto. Qed.
+
+Section Acts.
+  Variables W Inp Act Cont Rec : Type.
+  Variable init : W -> Inp -> Cont.
+  Variable eval : W -> Inp -> Act -> Cont -> W * Cont.
+  Variable render : Cont -> Rec.
+  Hypothesis eval_ro : forall w i a c, fst (eval w i a c) = w.
+
+  Lemma gm_solo_add a b s l :
+    gm_solo init eval render (a + b) s l =
+    gm_solo init eval render b (fst (gm_solo init eval render a s l)) (snd (gm_solo init eval render a s l)).
+  Proof.
+    unfold gm_solo. rewrite citerate_add. destruct (citerate a _ (s, l)) as [s1 l1]. reflexivity.
+  Qed.
+
+  (* running the evaluation actions of a transaction alone folds eval over its own object *)
+  Lemma gm_solo_acts : forall acts (s : gm_sh W Cont Rec) (l : gm_lo Inp Act Cont) o rest,
+    l_pc l = map TAct acts ++ rest -> l_obj l = Some o ->
+    let st := gm_solo init eval render (length acts) s l in
+    s_waf (fst st) = s_waf s /\
+    s_objs (fst st) o = fold_left (fun c a => snd (eval (s_waf s) (l_inp l) a c)) acts (s_objs s o) /\
+    l_pc (snd st) = rest /\ l_obj (snd st) = Some o /\ l_out (snd st) = l_out l /\ l_inp (snd st) = l_inp l /\
+    s_log (fst st) = s_log s.
+  Proof.
+    induction acts as [|a acts IH]; intros s l o rest Hpc Ho.
+    - cbn. repeat split; auto.
+    - cbn [length]. rewrite (gm_solo_S _ _ _ _ _ init eval render).
+      cbn [map app] in Hpc.
+      assert (E : gm_tstep init eval render 0 s l =
+                  (mk_gm_sh (fst (eval (s_waf s) (l_inp l) a (s_objs s o)))
+                            (gm_upd (s_objs s) o (snd (eval (s_waf s) (l_inp l) a (s_objs s o)))) (s_next s) (s_pool s) (s_log s),
+                   mk_gm_lo (l_inp l) (map TAct acts ++ rest) (l_obj l) (l_out l))).
+      { unfold gm_tstep. rewrite Hpc, Ho. destruct (eval (s_waf s) (l_inp l) a (s_objs s o)); reflexivity. }
+      rewrite E. cbn [fst snd]. rewrite eval_ro.
+      specialize (IH (mk_gm_sh (s_waf s) (gm_upd (s_objs s) o (snd (eval (s_waf s) (l_inp l) a (s_objs s o)))) (s_next s) (s_pool s) (s_log s))
+                     (mk_gm_lo (l_inp l) (map TAct acts ++ rest) (l_obj l) (l_out l)) o rest eq_refl Ho).
+      cbn [s_waf s_objs l_inp l_out s_log] in IH. rewrite gm_upd_same in IH. exact IH.
+  Qed.
+End Acts.
+
+(* ---- the exclusion merge: run-alone outcome = the declarative selection ---- *)
+Definition cc_wf (w : cc_waf) (c : cc_cont) : Prop :=
+  sl_len (lc_cur c) <= length (cc_array (cw_arrays w) (lc_arrays c) (lc_cur c)).
+
+Lemma cc_fold_appends : forall es w inp c,
+  cc_wf w c ->
+  let c' := fold_left (fun c a => snd (cc_eval true w inp a c)) (map AAppend es) c in
+  cc_wf w c' /\ lc_matched c' = lc_matched c /\
+  cc_elems (cw_arrays w) (lc_arrays c') (lc_cur c') = cc_elems (cw_arrays w) (lc_arrays c) (lc_cur c) ++ es.
+Proof.
+  induction es as [|e es IH]; intros w inp c Hwf.
+  - cbn. rewrite app_nil_r. auto.
+  - cbn [map fold_left].
+    set (c1 := snd (cc_eval true w inp (AAppend e) c)).
+    assert (H1 : cc_wf w c1 /\ lc_matched c1 = lc_matched c /\
+                 cc_elems (cw_arrays w) (lc_arrays c1) (lc_cur c1) = cc_elems (cw_arrays w) (lc_arrays c) (lc_cur c) ++ [e]).
+    { subst c1. cbn [cc_eval]. pose proof (cc_append_clipped_elems (cw_arrays w) (lc_arrays c) (lc_cur c) e Hwf) as E.
+      unfold cc_merge_append in *. rewrite cc_go_append_clip in *. cbn [snd lc_arrays lc_cur lc_matched].
+      split; [|split; [reflexivity | exact E]].
+      unfold cc_wf, cc_array; cbn [lc_cur lc_arrays sl_len sl_reg sl_arr].
+      rewrite app_nth2, Nat.sub_diag by lia. cbn [nth]. rewrite app_length. cbn [length].
+      rewrite cc_elems_clip. unfold cc_elems. rewrite firstn_length. unfold cc_wf in Hwf. lia. }
+    destruct H1 as (W1 & M1 & E1). destruct (IH w inp c1 W1) as (W2 & M2 & E2).
+    split; [exact W2|]. split; [congruence|]. rewrite E2, E1, <- app_assoc. reflexivity.
+Qed.
+
+Lemma cc_build_cap_ge : forall k n cap, n <= cap -> n + k <= cc_build_cap n cap k.
+Proof.
+  induction k as [|k IH]; intros n cap H; cbn [cc_build_cap]; [lia|].
+  destruct (n <? cap) eqn:E.
+  - apply Nat.ltb_lt in E. specialize (IH (S n) cap). lia.
+  - apply Nat.ltb_ge in E. assert (n = cap) by lia. subst.
+    destruct (cap =? 0) eqn:Z.
+    + apply Nat.eqb_eq in Z. subst. specialize (IH 1 1). lia.
+    + apply Nat.eqb_neq in Z. specialize (IH (S cap) (2 * cap)). lia.
+Qed.
+
+(* A transaction run alone on the rule  V|!V:e1|..|!V:en  "@contains needle"  with the
+   per-transaction exclusions ecol matches exactly the arguments whose value contains the needle
+   and whose name is excluded neither by the rule nor by the transaction *)
+Theorem cc_solo_outcome_spec : forall excs needle inp,
+  cc_solo_outcome true (cc_waf_of excs needle) inp = cc_select needle (excs ++ in_ecol inp) (in_args inp).
+Proof.
+  intros excs needle inp. unfold cc_solo_outcome, cc_tx, gm_start, gm_program. cbv zeta. cbn [l_pc].
+  set (w := cc_waf_of excs needle).
+  set (acts := cc_actions w inp).
+  assert (Hacts : acts = ACopy 0 :: map AAppend (in_ecol inp) ++ [ARead]).
+  { subst acts. unfold cc_actions. subst w. cbn [cc_waf_of cw_vars length seq flat_map]. rewrite app_nil_r. reflexivity. }
+  replace (length (TNew :: map TAct acts ++ [TLog; TClose])) with (1 + (length acts + 2))
+    by (cbn [length]; rewrite app_length, map_length; cbn; lia).
+  rewrite (gm_solo_add _ _ _ _ _ cc_init (cc_eval true) cc_render 1).
+  (* TNew *)
+  set (s1 := fst (gm_solo cc_init (cc_eval true) cc_render 1 (gm_sh0 w (cc_init w inp))
+                          (mk_gm_lo inp (TNew :: map TAct acts ++ [TLog; TClose]) None None))).
+  set (l1 := snd (gm_solo cc_init (cc_eval true) cc_render 1 (gm_sh0 w (cc_init w inp))
+                          (mk_gm_lo inp (TNew :: map TAct acts ++ [TLog; TClose]) None None))).
+  assert (Hs1 : s_waf s1 = w /\ s_objs s1 0 = cc_init w inp /\ l_pc l1 = map TAct acts ++ [TLog; TClose] /\
+                l_obj l1 = Some 0 /\ l_out l1 = None /\ l_inp l1 = inp).
+  { subst s1 l1. cbn. repeat split; reflexivity. }
+  destruct Hs1 as (Hw1 & Ho1 & Hp1 & Hb1 & Hu1 & Hi1).
+  rewrite (gm_solo_add _ _ _ _ _ cc_init (cc_eval true) cc_render (length acts) 2).
+  pose proof (gm_solo_acts _ _ _ _ _ cc_init (cc_eval true) cc_render cc_eval_clipped_ro acts s1 l1 0 [TLog; TClose] Hp1 Hb1) as A.
+  cbn zeta in A. destruct A as (Aw & Ao & Ap & Ab & Au & Ai & _).
+  set (s2 := fst (gm_solo cc_init (cc_eval true) cc_render (length acts) s1 l1)) in *.
+  set (l2 := snd (gm_solo cc_init (cc_eval true) cc_render (length acts) s1 l1)) in *.
+  (* TLog; TClose *)
+  assert (Hfin : l_out (snd (gm_solo cc_init (cc_eval true) cc_render 2 s2 l2)) = Some (s_objs s2 0)).
+  { clearbody s2 l2. destruct l2 as [i2 pc2 ob2 out2]. cbn [l_pc l_obj] in Ap, Ab. subst pc2 ob2. reflexivity. }
+  destruct (gm_solo cc_init (cc_eval true) cc_render 2 s2 l2) as [s3 l3]. cbn [snd] in Hfin. rewrite Hfin.
+  rewrite Ao, Hw1, Hi1, Ho1, Hacts. cbn [fold_left].
+  set (c1 := snd (cc_eval true w inp (ACopy 0) (cc_init w inp))).
+  rewrite fold_left_app. cbn [fold_left].
+  assert (Hwf1 : cc_wf w c1).
+  { subst c1 w. unfold cc_wf, cc_array; cbn. rewrite app_length, repeat_length.
+    pose proof (cc_build_cap_ge (length excs) 0 0 (le_n 0)). lia. }
+  destruct (cc_fold_appends (in_ecol inp) w inp c1 Hwf1) as (W2 & M2 & E2).
+  set (c2 := fold_left (fun c a => snd (cc_eval true w inp a c)) (map AAppend (in_ecol inp)) c1) in *.
+  cbn [cc_eval snd lc_matched]. rewrite M2, E2.
+  assert (E1 : cc_elems (cw_arrays w) (lc_arrays c1) (lc_cur c1) = excs).
+  { subst c1 w. unfold cc_elems, cc_array; cbn. rewrite firstn_app, firstn_all, Nat.sub_diag. cbn. apply app_nil_r. }
+  rewrite E1. subst c1 w. cbn. reflexivity.
+Qed.
